@@ -194,6 +194,13 @@ func wsStress(c *Ctx, n int) {
 			cls = "panic:close-of-closed-channel"
 		case strings.Contains(msg, "send on closed channel"):
 			cls = "panic:send-on-closed-channel:stress"
+			// which send?  The goroutine that panicked is printed first: when its innermost frame is the harness's own
+			// forwarder (wsStressOnce.func1, called from forwardWebSocketData), the closed channel is a DATA channel that
+			// Unsubscribe/Close/complete closed while this delivery was in flight — the known finding F-13c.  A send on
+			// the closed ERROR channel (handleErr) or anywhere else keeps the unlisted class.
+			if first := firstGoroutine(stderr.String()); strings.Contains(first, "wsStressOnce.func1") && strings.Contains(first, "forwardWebSocketData") && !strings.Contains(first, "handleErr") {
+				cls = "panic:send-on-closed-channel:ended-during-delivery"
+			}
 		case strings.Contains(msg, "DATA RACE"):
 			cls = "data-race"
 		}
@@ -204,4 +211,18 @@ func wsStress(c *Ctx, n int) {
 		c.Res.Add(proto.Finding{Kind: "violation", Class: cls, What: "free-running stress crashed: " + msg,
 			Case: map[string]any{"stress_iterations": n, "seed": c.Seed, "stderr": st, "note": "replay: re-run the stress with the same seed (timing dependent)"}})
 	}
+}
+
+
+// firstGoroutine: the stack of the goroutine that panicked (the first "goroutine N [running]:" block)
+func firstGoroutine(st string) string {
+	i := strings.Index(st, "goroutine ")
+	if i < 0 {
+		return ""
+	}
+	rest := st[i:]
+	if j := strings.Index(rest, "\n\n"); j >= 0 {
+		return rest[:j]
+	}
+	return rest
 }
